@@ -130,6 +130,27 @@ pub mod dev {
     }
 }
 
+/// H5: extent pin events. `note("pin", sector, blocks)` is reported after a reader acquired the
+/// extent, `note("unpin", ..)` before it releases it.
+pub mod ext {
+    use std::sync::{Arc, RwLock};
+
+    pub type Callback = Arc<dyn Fn(&'static str, u64, u64) + Send + Sync>;
+    static CALLBACK: RwLock<Option<Callback>> = RwLock::new(None);
+
+    pub fn install(callback: Option<Callback>) {
+        *CALLBACK.write().unwrap() = callback;
+    }
+
+    #[inline]
+    pub(crate) fn note(name: &'static str, a: u64, b: u64) {
+        let callback = CALLBACK.read().unwrap().clone();
+        if let Some(callback) = callback {
+            callback(name, a, b);
+        }
+    }
+}
+
 /// H6: named scheduling points. A no-op unless the harness installs a callback; never called
 /// while a lock is held by the caller unless the point's name says so.
 pub mod sched {
